@@ -444,6 +444,42 @@ example : (dictPrim envT false (fun _ => false) ⟨[Field.mk (.const "x") (.int 
 example : (dictPrim envT false (fun _ => false) ⟨[Field.mk (.const "x") (.int (some 0) none F0)], [("x", .int 1)]⟩ "q"
     (.plain (.int 1))).2 = some .key := by rfl
 
+/-! ## What a conforming member looks like -/
+
+/-- "Frozen fields equal their frozen value": a member that its frozen field spec maps to itself IS
+the frozen value — for every spec class, also a noneable one (None is not exempt). -/
+theorem C03_frozen_holds (env : Env) (s : Spec) (p : Bool) (v : Val) (hf : s.flags.frozen = true)
+    (h : apply env s p v = .ok v) : v = s.flags.default := by
+  have key : ∀ (f : Flags) (k : Val → R Val), f.frozen = true → gate f p v k = .ok v → v = f.default := by
+    intro f k hfz hg
+    unfold gate at hg
+    simp only [hfz, if_true] at hg
+    split at hg
+    · cases hg
+    · injection hg with hg; exact hg.symm
+  cases s with
+  | dict fields f =>
+    cases fields <;> simp only [Spec.flags] at hf ⊢ <;> simp only [apply] at h <;> exact key _ _ hf h
+  | _ => simp only [Spec.flags] at hf ⊢; simp only [apply] at h; exact key _ _ hf h
+
+/-- "Required fields are present unless the value was explicitly made partial", at depth: a member
+accepted by an Object-typed field of a non-partial container is not a partial object. -/
+theorem C03_object_member_complete (env : Env) (c : Nat) (f : Flags) (c' u : Nat) (part : Bool)
+    (hf : f.frozen = false) (h : apply env (.obj c f) false (.obj c' u part) = .ok (.obj c' u part)) :
+    part = false := by
+  simp only [apply, gate, hf, Val.isMissing, Val.isNone, Bool.false_eq_true, if_false, bind, Except.bind] at h
+  cases ht : typeCheck env (some [Ty.obj c]) (Val.obj c' u part) with
+  | error e => simp [ht] at h
+  | ok w =>
+    simp only [ht] at h
+    cases w with
+    | obj c2 u2 p2 =>
+      simp only [Bool.not_false, Bool.true_and] at h
+      cases hp : p2
+      · simp [hp] at h; exact h.2.2
+      · simp [hp] at h
+    | _ => simp at h
+
 /-! ## Generated obligations (T-GUARD facts of the current source, lean/PgGen/C03Tables.lean)
 
 The model routes every list growth through `listPrim` (which checks `max_size` and formalizes) and
